@@ -315,7 +315,11 @@ def search_tabulated(ci: ClassInfo, fi: FuncInfo):
 def search_idiom(rep: Report, ci: ClassInfo, fi: FuncInfo) -> int:
     loops = [l for l in fi.body if isinstance(l, ast.For) and match(l.iter, "range(self.order)") is not None and isinstance(l.target, ast.Name)]
     if len(loops) != 1:
-        rep.undecided("LABEL", fi, f"{ci.name}: search loop over range(self.order)", "not found")
+        est, edetail = search_tabulated(ci, fi)
+        if est is None:
+            rep.undecided("LABEL", fi, f"{ci.name}: search loop over range(self.order)", f"not found; tabulation: {edetail}")
+        else:
+            rep.add("LABEL", fi, f"{ci.name}: bit group -> point, tabulated over all bit groups with a permuted label table", est, edetail, node=fi.node)
         return 1
     lp = loops[0]
     v = lp.target.id
@@ -1325,6 +1329,11 @@ def rule_memory(repo: Repo, rep: Report) -> int:
             rep.undecided("MEMORY", fwd, f"{cname}: writes of self.{attr}", "none found (anchor changed)")
         # reset_state restores the constructor's initial value
         init = ci.find_method("__init__")
+
+        def _mkf(ci=ci):
+            f_ = Folder()
+            f_.funcs = {f"self.{nm_}": m_.node for nm_, m_ in ci.methods.items() if nm_ not in ("forward", "__init__", "reset_state")}
+            return f_
         rs = ci.methods.get("reset_state")
         ini = None
         for s in ast.walk(init.node):
@@ -1335,19 +1344,19 @@ def rule_memory(repo: Repo, rep: Report) -> int:
             rep.undecided("MEMORY", ci, f"{cname}: reset_state / initial value of {attr}", "not found")
             continue
         try:
-            iv = Folder().fold(ini)
+            iv = _mkf().fold(ini)
         except Unfoldable:
             iv = None
         rv = None
         for s in ast.walk(rs.node):
             if isinstance(s, ast.Assign) and attr_chain(s.targets[0]) == f"self.{attr}":
                 try:
-                    rv = Folder().fold(s.value)
+                    rv = _mkf().fold(s.value)
                 except Unfoldable:
                     rv = "?"
             if isinstance(s, ast.Call) and isinstance(s.func, ast.Attribute) and s.func.attr in ("fill_", "copy_") and attr_chain(s.func.value) == f"self.{attr}" and s.args:
                 try:
-                    rv = Folder().fold(s.args[0])
+                    rv = _mkf().fold(s.args[0])
                 except Unfoldable:
                     rv = "?"
             if isinstance(s, ast.Call) and isinstance(s.func, ast.Attribute) and s.func.attr == "zero_" and attr_chain(s.func.value) == f"self.{attr}":
@@ -1472,12 +1481,30 @@ def rule_output(repo: Repo, rep: Report) -> int:
 
         def hard(ret: ast.AST) -> Optional[bool]:
             """Is this return reachable with noise_var None and soft_output False?"""
+            HARD = {"noise_var is None": True, "noise_var is not None": False, "self.soft_output": False, "not self.soft_output": True}
             for a in ancestors(ret):
                 if isinstance(a, ast.If):
                     in_body = any(ret is x for b_ in a.body for x in ast.walk(b_))
-                    t = tv_eval(a.test, {"noise_var is None": True, "noise_var is not None": False, "self.soft_output": False, "not self.soft_output": True})
+                    t = tv_eval(a.test, HARD)
                     if t is not None and t != in_body:
                         return False
+            # an earlier sibling `if <hard condition>: ... return` (early-return style) ends the hard path before this statement
+
+            def always_leaves(block):
+                return bool(block) and (isinstance(block[-1], (ast.Return, ast.Raise)) or (isinstance(block[-1], ast.If) and block[-1].orelse and always_leaves(block[-1].body) and always_leaves(block[-1].orelse)))
+
+            chain = [ret] + list(ancestors(ret))
+            for child, parent in zip(chain, chain[1:]):
+                for fld in ("body", "orelse", "finalbody"):
+                    blk = getattr(parent, fld, None)
+                    if isinstance(blk, list) and any(child is x for x in blk):
+                        for sib in blk[: next(i for i, x in enumerate(blk) if x is child)]:
+                            if isinstance(sib, ast.If):
+                                t = tv_eval(sib.test, HARD)
+                                if (t is True and always_leaves(sib.body)) or (t is False and always_leaves(sib.orelse)):
+                                    return False
+                if parent is fi.node:
+                    break
             return True
 
         # flow-insensitive kinds of the local names: 'bits' (label rows / sign tests) or 'indices' (argmin results)
